@@ -33,6 +33,7 @@ def run(ctx):
         grid.append((fams[gi % len(fams)], kind, nkeys, (4, 4), ("setstate", newn)))
     grid += [("fs", "Bucket", n_, (4, 4), ("fromBytes", m_)) for n_ in (0, 3, 20) for m_ in (5, 40)]
     grid += [(fn_, k_, n_, (2, 4), "insert-evicted") for fn_ in ("II", "OO") for k_ in ("BTree", "TreeSet") for n_ in (8, 19, 27, 40, 83)]
+    grid += [(fn_, k_, n_, (4, 4), "multiunion") for fn_ in ("II", "LL") for k_ in ("Set", "Bucket", "TreeSet") for n_ in (3, 40)]
     grid += [("II", "Set", 16, (4, 4), "iand"), ("OO", "TreeSet", 16, (4, 4), "iand"), ("LL", "TreeSet", 64, (4, 4), "iand")]
     for it in range(len(grid) + ctx.n(80, 12000)):
         fn = rng.choice(fams)
